@@ -25,8 +25,13 @@ CONSTANTS
   Funcs   \* sequence of subprograms with code, records
           \*   [name, ranges, decl]   ranges: set of <<lo, hi>> (hi exclusive)
 
-RowIdx  == DOMAIN Rows
-FuncIdx == DOMAIN Funcs
+\* Aliases: zero-arity constant-level definitions are evaluated once and cached by TLC, whereas a
+\* CONSTANT replaced in the .cfg by `Rows <- DataRows` is re-evaluated at every use (measured:
+\* 0.3 ms per `Rows[i]` on a 770-row table).  All operators below go through Row / Fn.
+Row == Rows
+Fn  == Funcs
+RowIdx  == DOMAIN Row
+FuncIdx == DOMAIN Fn
 
 Min(S) == CHOOSE x \in S : \A y \in S : x <= y
 Max(S) == CHOOSE x \in S : \A y \in S : x >= y
@@ -36,20 +41,20 @@ Max(S) == CHOOSE x \in S : \A y \in S : x >= y
 (* instructions from its address up to the address of the next row of the  *)
 (* same sequence; an end_sequence row describes no instruction).           *)
 (***************************************************************************)
-SeqIds == {Rows[i].seq : i \in RowIdx}
+SeqIds == {Row[i].seq : i \in RowIdx}
 
 \* (TLCEval only forces TLC to tabulate these functions once when Rows is a real constant;
 \* it is the identity)
-SeqRows == TLCEval([s \in SeqIds |-> {i \in RowIdx : Rows[i].seq = s}])
-SeqLo   == TLCEval([s \in SeqIds |-> Min({Rows[i].addr : i \in SeqRows[s]})])
-SeqHi   == TLCEval([s \in SeqIds |-> Max({Rows[i].addr : i \in SeqRows[s]})])
+SeqRows == TLCEval([s \in SeqIds |-> {i \in RowIdx : Row[i].seq = s}])
+SeqLo   == TLCEval([s \in SeqIds |-> Min({Row[i].addr : i \in SeqRows[s]})])
+SeqHi   == TLCEval([s \in SeqIds |-> Max({Row[i].addr : i \in SeqRows[s]})])
 
 \* the next row of the same sequence (rows are in program order, the last row of a
 \* sequence is its end_sequence row)
-RowEnd(i) == IF Rows[i].es THEN Rows[i].addr ELSE Rows[i + 1].addr
+RowEnd(i) == IF Row[i].es THEN Row[i].addr ELSE Row[i + 1].addr
 
-Covers(i, pc) == /\ ~Rows[i].es
-                 /\ Rows[i].addr <= pc
+Covers(i, pc) == /\ ~Row[i].es
+                 /\ Row[i].addr <= pc
                  /\ pc < RowEnd(i)
 
 \* rows describing the instruction at pc (exactly one in a well-formed table; several
@@ -58,24 +63,31 @@ PlaceRows(pc) ==
   UNION {{i \in SeqRows[s] : Covers(i, pc)} : s \in {t \in SeqIds : SeqLo[t] <= pc /\ pc < SeqHi[t]}}
 
 \* the file and line an independent reader shows for pc
-PlaceOf(pc) == {<<Rows[i].file, Rows[i].line>> : i \in PlaceRows(pc)}
+PlaceOf(pc) == {<<Row[i].file, Row[i].line>> : i \in PlaceRows(pc)}
 
 \* Weaker reading used for the verdict on real binaries: rows of the covering sequence
 \* that carry the same address as the covering row (a zero-length row immediately
 \* followed by the covering row).  PlaceOf(pc) \subseteq PlaceCandidates(pc).
 PlaceCandRows(pc) ==
-  UNION {{j \in SeqRows[Rows[i].seq] : ~Rows[j].es /\ Rows[j].addr = Rows[i].addr} : i \in PlaceRows(pc)}
-PlaceCandidates(pc) == {<<Rows[i].file, Rows[i].line>> : i \in PlaceCandRows(pc)}
+  UNION {{j \in SeqRows[Row[i].seq] : ~Row[j].es /\ Row[j].addr = Row[i].addr} : i \in PlaceRows(pc)}
+PlaceCandidates(pc) == {<<Row[i].file, Row[i].line>> : i \in PlaceCandRows(pc)}
+
+\* (classification only) end_sequence rows of OTHER sequences that lie between the covering row's
+\* address and pc: an address-sorted vector that keeps end_sequence rows may present one of them as
+\* "the row before pc".  Never part of an expected answer.
+EndSeqShadowing(pc) ==
+  {<<Row[j].file, Row[j].line>> :
+     j \in {k \in RowIdx : Row[k].es /\ Row[k].addr <= pc /\ \E i \in PlaceRows(pc) : Row[i].addr <= Row[k].addr}}
 
 InRanges(rs, pc) == \E r \in rs : r[1] <= pc /\ pc < r[2]
-InFunc(f, pc)    == InRanges(Funcs[f].ranges, pc)
+InFunc(f, pc)    == InRanges(Fn[f].ranges, pc)
 
 \* the function(s) whose ranges contain pc
 FuncOf(pc) == {f \in FuncIdx : InFunc(f, pc)}
 
 \* --- file:line -> breakpoint addresses --------------------------------------------
-RealRows(file, l) == {i \in RowIdx : ~Rows[i].es /\ Rows[i].file = file /\ Rows[i].line = l}
-StmtRows(file, l) == {i \in RealRows(file, l) : Rows[i].stmt}
+RealRows(file, l) == {i \in RowIdx : ~Row[i].es /\ Row[i].file = file /\ Row[i].line = l}
+StmtRows(file, l) == {i \in RealRows(file, l) : Row[i].stmt}
 HasCode(file, l)  == RealRows(file, l) # {}
 
 \* "statements of that line, or of the next line only if the line has no code".
@@ -89,7 +101,7 @@ LineTarget(file, l) ==
 \* addresses a breakpoint for file:l may be put on
 AddrsOfLine(file, l) ==
   LET t == LineTarget(file, l)
-  IN IF t[1] \in {"line", "next"} THEN {Rows[i].addr : i \in StmtRows(file, t[2])} ELSE {}
+  IN IF t[1] \in {"line", "next"} THEN {Row[i].addr : i \in StmtRows(file, t[2])} ELSE {}
 
 \* "every function or instantiation that contains the line gets its own breakpoint"
 FuncsOfLine(file, l) == LET A == AddrsOfLine(file, l) IN {f \in FuncIdx : \E a \in A : InFunc(f, a)}
@@ -101,12 +113,20 @@ LineAnswerOK(file, l, A) ==
      /\ \A f \in FuncsOfLine(file, l) : \E a \in A : InFunc(f, a)
      /\ (AddrsOfLine(file, l) # {}) => (A # {})
 
+\* every breakpoint-capable place of a file: its statement rows (an end_sequence row is not a
+\* place: it describes no instruction)
+StmtPlacesOfFile(file, lo, hi) ==
+  {<<Row[i].addr, Row[i].line, Row[i].col>> :
+     i \in {j \in RowIdx : ~Row[j].es /\ Row[j].stmt /\ Row[j].file = file /\ lo <= Row[j].line /\ Row[j].line <= hi}}
+EndSeqPlacesOfFile(file) ==
+  {<<Row[i].addr, Row[i].line, Row[i].col>> : i \in {j \in RowIdx : Row[j].es /\ Row[j].file = file}}
+
 \* --- function -> breakpoint address -------------------------------------------------
-PeRowsOf(f) == {i \in RowIdx : ~Rows[i].es /\ Rows[i].pe /\ InFunc(f, Rows[i].addr)}
+PeRowsOf(f) == {i \in RowIdx : ~Row[i].es /\ Row[i].pe /\ InFunc(f, Row[i].addr)}
 HasPe(f)    == PeRowsOf(f) # {}
 \* "an instruction of that function, at the end of its prologue when the compiler marks one":
 \* the first (lowest-address) prologue_end row of f if there is one ...
-FnBreakAddr(f) == Min({Rows[i].addr : i \in PeRowsOf(f)})
+FnBreakAddr(f) == Min({Row[i].addr : i \in PeRowsOf(f)})
 \* ... otherwise any instruction of f.  `insn` = the set of instruction addresses.
 FnAnswerOK(f, a, insn) ==
   IF HasPe(f) THEN a = FnBreakAddr(f) ELSE a \in insn /\ InFunc(f, a)
@@ -120,7 +140,7 @@ FnAnswerOK(f, a, insn) ==
 (* Indices are 0-based in the code; V[k+1] below is the code's lines[k].   *)
 (***************************************************************************)
 N(V) == Len(V)
-AddrAt(V, k) == Rows[V[k + 1]].addr        \* lines[k].address
+AddrAt(V, k) == Row[V[k + 1]].addr        \* lines[k].address
 
 \* all address-sorted arrangements of the rows (what sort_unstable may produce)
 RECURSIVE PermSeqs(_)
@@ -130,11 +150,11 @@ RECURSIVE SortedFrom(_)
 SortedFrom(as) ==
   IF as = {} THEN {<<>>}
   ELSE LET a == Min(as)
-           g == {i \in RowIdx : Rows[i].addr = a}
+           g == {i \in RowIdx : Row[i].addr = a}
        IN UNION {{p \o t : t \in SortedFrom(as \ {a})} : p \in PermSeqs(g)}
 \* (operators with a parameter on purpose: TLC pre-evaluates zero-arity constant definitions,
 \* which must not happen for a real table of hundreds of rows)
-AllSortedVecs(I) == SortedFrom({Rows[i].addr : i \in I})
+AllSortedVecs(I) == SortedFrom({Row[i].addr : i \in I})
 
 \* the arrangement a STABLE sort produces (what sort_unstable does for <= 20 elements:
 \* insertion sort) - rows of equal address keep program order
@@ -142,11 +162,11 @@ RECURSIVE StableFrom(_)
 StableFrom(as) ==
   IF as = {} THEN <<>>
   ELSE LET a == Min(as)
-           g == {i \in RowIdx : Rows[i].addr = a}
+           g == {i \in RowIdx : Row[i].addr = a}
            RECURSIVE Asc(_)
            Asc(S) == IF S = {} THEN <<>> ELSE <<Min(S)>> \o Asc(S \ {Min(S)})
        IN Asc(g) \o StableFrom(as \ {a})
-StableVec(I) == StableFrom({Rows[i].addr : i \in I})
+StableVec(I) == StableFrom({Row[i].addr : i \in I})
 
 \* core::slice::binary_search_by of rustc 1.89 (library/core/src/slice/mod.rs), keyed by
 \* address.  Result <<"ok", k>> or <<"err", k>>, k 0-based.
@@ -181,7 +201,7 @@ PlacePosOutcomes(V, pc, any) ==
 \* dwarf/mod.rs:262 find_place_from_pc
 AlgPlacePos(V, ur, pc, any) == IF InUnit(ur, pc) THEN PlacePosOutcomes(V, pc, any) ELSE {}
 AlgPlaceOf(V, ur, pc, any) ==
-  {<<Rows[V[k + 1]].file, Rows[V[k + 1]].line, Rows[V[k + 1]].es>> : k \in AlgPlacePos(V, ur, pc, any)}
+  {<<Row[V[k + 1]].file, Row[V[k + 1]].line, Row[V[k + 1]].es>> : k \in AlgPlacePos(V, ur, pc, any)}
 
 \* dwarf/mod.rs:284 find_function_by_pc over D (sorted by lo).  Binary search by lo; on a
 \* hit extend to the right over equal keys; then scan [..pos) backwards for the first
@@ -201,9 +221,9 @@ AlgFuncOf(D, ur, pc) ==
 \* `while !place.prolog_end { place = place.next() or break }` over the WHOLE vector.
 RECURSIVE PeScan(_, _)
 PeScan(V, k) ==
-  IF Rows[V[k + 1]].pe THEN k
+  IF Row[V[k + 1]].pe THEN k
   ELSE IF k + 1 >= N(V) THEN k ELSE PeScan(V, k + 1)
-FuncLo(f) == Min({r[1] : r \in Funcs[f].ranges})
+FuncLo(f) == Min({r[1] : r \in Fn[f].ranges})
 \* set of possible addresses ({} = error "function not found")
 AlgFnBreak(V, ur, f, any) ==
   {AddrAt(V, PeScan(V, k)) : k \in AlgPlacePos(V, ur, FuncLo(f), any)}
@@ -216,9 +236,9 @@ AlgFnBreakRow(V, ur, f, any) ==
 FileLines(V, file) ==
   LET RECURSIVE Go(_)
       Go(k) == IF k >= N(V) THEN <<>>
-               ELSE (IF Rows[V[k + 1]].file = file THEN <<k>> ELSE <<>>) \o Go(k + 1)
+               ELSE (IF Row[V[k + 1]].file = file THEN <<k>> ELSE <<>>) \o Go(k + 1)
   IN Go(0)
-RowAt(V, k) == Rows[V[k + 1]]
+RowAt(V, k) == Row[V[k + 1]]
 
 \* look-ahead (mod.rs:394-411): from FL index j (1-based here) over following rows with the
 \* same line and is_stmt; the first prologue_end one wins.  Returns the FL index chosen.
@@ -253,7 +273,7 @@ Dedup(V, D, ur, places, seen) ==
            fs == AlgFuncOf(D, ur, AddrAt(V, k))
        IN IF fs = {} THEN <<k>> \o Dedup(V, D, ur, Tail(places), seen)
           ELSE LET f   == CHOOSE x \in fs : TRUE
-                   key == <<Funcs[f].name, Funcs[f].ranges>>
+                   key == <<Fn[f].name, Fn[f].ranges>>
                IN IF key \in seen THEN Dedup(V, D, ur, Tail(places), seen)
                   ELSE <<k>> \o Dedup(V, D, ur, Tail(places), seen \cup {key})
 
